@@ -522,3 +522,45 @@ def _real_joins(a: dict):
 
 
 REGISTRY["C09.metadata_joins_use_full_keys"].real_replay = _real_joins
+
+
+# ------------------------------------------------------------------ statements that declare nothing write no metadata (whatever ran before them)
+PRIORS = [
+    [],
+    ["alter table t1 set comment = 'old'", "comment on table t1 is 'new'"],
+    ["comment on table t1 is 'old'", "alter table t1 set comment = 'new'"],
+    ["create table tp (a varchar(3)) comment = 'tp'"],
+]
+NOOPS = ["set v9 = 1", "alter table t1 cluster by (a)", "alter table t1 set tag cost = 'x'", "create tag cost", "select a from t1", "use schema s2", "begin", "insert into t1 (a) values (1)"]
+
+
+def _noop_writes_nothing(pi: int, ni: int, other_session: bool) -> bool:
+    eng = std_engine()
+    fs = instance(eng)
+    conn = fs.connect(database="db1", schema="s1")
+    for q in PRIORS[pi]:
+        conn.cursor().execute(q)
+    actor = fs.connect(database="db1", schema="s2") if other_session else conn
+    base = len(eng.log)
+    actor.cursor().execute(NOOPS[ni])
+    for _c, q in eng.log[base:]:
+        if isinstance(q, str) and "_fs_" in q.lower() and q.lstrip().upper().startswith(("INSERT", "UPDATE", "DELETE")):
+            return False  # metadata written by a statement that declares none
+    return True
+
+
+@ob(
+    "C09.statements_that_declare_nothing_write_no_metadata",
+    encodes=["fakesnow.cursor.FakeSnowflakeCursor.execute/_transform/_execute", "fakesnow.transforms.extract_comment_on_table / SUCCESS_NOP (shared state)"],
+    bounds="8 statements that declare no comment / length (SET, CLUSTER BY and TAG no-ops, CREATE TAG, SELECT, USE, BEGIN, INSERT) executed after 4 "
+    "session prefixes (nothing; ALTER SET COMMENT then COMMENT ON; COMMENT ON then ALTER SET COMMENT; CREATE TABLE with comment and length), by the "
+    "same or by another session: no write to the metadata side tables reaches the engine",
+    timeout=(200, 400),
+    stubs=["K1/K2 vf.duckstub.Engine"],
+)
+def noop_writes_nothing(pi: int, ni: int, other_session: bool) -> bool:
+    """
+    pre: 0 <= pi < len(PRIORS) and 0 <= ni < len(NOOPS)
+    post: _
+    """
+    return done(fast.native(_noop_writes_nothing, fast.pick(pi, len(PRIORS)), fast.pick(ni, len(NOOPS)), bool(fast.pick(other_session, 2))))
